@@ -60,13 +60,35 @@ package ast
 //@   nosafety
 //@   modifies *
 //@   at call ast.Node.String#* forbid[operands-printed-through-operandString;C17] false
-//@ func (*TernNode).String
-//@   props C17
-//@   nosafety
-//@   modifies *
-//@   at call ast.Node.String#* forbid[operands-printed-through-operandString;C17] false
 //@ func (*StringNode).String
 //@   props C17
 //@   nosafety
 //@   pure
 //@   ensures[prints-its-source-form;C17] result == s.Quoted
+
+// a float literal prints with a fraction or an exponent (so that it reads back
+// as a float, not as an integer), and the fraction is added only to plain
+// digit strings; a ternary prints its '?' and ':' between spaces (so that '?'
+// followed by '[' or '.' is not read as a null-safe access).
+//@ func (*FloatNode).String
+//@   props C17
+//@   nosafety
+//@   stringsexact
+//@   modifies *
+//@   ghost digits string = ""
+//@   at call strconv.FormatFloat#0 after set digits = res
+//@   ensures[float-text-has-fraction-or-exponent;C17] exists(i, 0, len(result), result[i] == '.' || result[i] == 'e' || result[i] == 'E' || result[i] == 'N' || result[i] == 'I')
+//@   ensures[fraction-added-to-plain-digits-only;C17] len(result) == len(digits) || forall(i, 0, len(digits), digits[i] != '.' && digits[i] != 'e' && digits[i] != 'E')
+//@ func (*TernNode).String
+//@   props C17
+//@   nosafety
+//@   stringsexact
+//@   modifies *
+//@   ghost o1 string = ""
+//@   ghost o2 string = ""
+//@   ghost o3 string = ""
+//@   at call ast.operandString#0 after set o1 = res
+//@   at call ast.operandString#1 after set o2 = res
+//@   at call ast.operandString#2 after set o3 = res
+//@   at call ast.Node.String#* forbid[operands-printed-through-operandString;C17] false
+//@   ensures[question-mark-and-colon-between-spaces;C17] len(result) == len(o1) + len(o2) + len(o3) + 6 && result[len(o1)] == ' ' && result[len(o1)+1] == '?' && result[len(o1)+2] == ' ' && result[len(o1)+3+len(o2)] == ' ' && result[len(o1)+4+len(o2)] == ':' && result[len(o1)+5+len(o2)] == ' '
